@@ -338,6 +338,27 @@ impl World {
         self.ds[d].mon.len() - 1
     }
 
+    /// The client drops its receiver of browse channel `ch`.
+    pub fn drop_browse(&mut self, d: usize, ch: usize) {
+        let (s, r) = flume::bounded(1);
+        drop(s);
+        self.ds[d].browse[ch] = r;
+        self.ds[d].closed_b[ch] = true;
+    }
+    pub fn drop_host(&mut self, d: usize, ch: usize) {
+        let (s, r) = flume::bounded(1);
+        drop(s);
+        self.ds[d].host[ch] = r;
+        self.ds[d].closed_h[ch] = true;
+    }
+
+    /// get_metrics through the public API (one extra iteration).
+    pub fn metrics(&mut self, d: usize) -> Option<std::collections::HashMap<String, i64>> {
+        let rx = self.ds[d].h.get_metrics().ok()?;
+        self.poke(d);
+        rx.try_recv().ok()
+    }
+
     fn push(&mut self, d: usize, kind: Kind) {
         let e = Ev {
             t: self.now,
